@@ -41,6 +41,9 @@ MIN_EVALS = {'quick': 20000, 'thorough': 300000}
 
 ALL = A.dtypes_pool()
 BY_SPEC = {d.spec: d for d in ALL}
+# integers too wide for a float: arithmetic with a float operand (or true division) fails inside Python, part way through the items
+WIDE = [A.DT('uint1100', 'uint', 1100, 'uint'), A.DT('int1100', 'int', 1100, 'int'), A.DT('uint2048', 'uint', 2048, 'uint')]
+BY_SPEC.update({d.spec: d for d in WIDE})
 # byte-multiplier dtypes are broken as a whole by one recorded mechanism (unit/bit-length confusion);
 # they are exercised by directed cases only so that the defect is counted once
 POOL = list(ALL)
@@ -425,7 +428,9 @@ def map_op(op, items, val_of, res_dt):
     for j, x in enumerate(items):
         try:
             r = op(x, val_of(j))
-        except (ZeroDivisionError, ValueError, OverflowError):
+        except OverflowError:
+            raise Expect(('ValueError', 'OverflowError'))       # Python's own 'int too large to convert to float'
+        except (ZeroDivisionError, ValueError):
             raise Expect('ValueError')
         except TypeError:
             raise Expect('TypeError')
@@ -676,6 +681,11 @@ DIRECTED_OPS = [
     {'dtype': 'uint8', 'items': [1, 2], 'kind': 'array', 'op': 'add', 'dtype2': 'int16', 'items2': [-1, -2]},
     {'dtype': 'uint8', 'items': [255], 'kind': 'scalar', 'op': 'add', 'val': 1},
 ]
+# a failure that is not the first item's, of a kind the library does not itself raise: the in-place form still changes nothing
+DIRECTED_OPS += [{'dtype': spec, 'items': items, 'kind': 'scalar', 'op': op, 'val': val}
+                 for spec, items in (('uint1100', [6, 2 ** 1030, 10]), ('int1100', [-6, 7, -2 ** 1050]), ('uint2048', [10, 20, 30, 2 ** 2000, 40]),
+                                     ('uint1100', [6, 8, 10]))
+                 for op, val in (('truediv', 2), ('mul', 1.5), ('add', 0.5), ('sub', 2.5), ('floordiv', 0.5), ('mul', 2), ('floordiv', 2), ('mod', 1.5))]
 
 
 # ---- promotion over all dtype pairs, 8-bit and smaller floats included ------------------------------------------------
